@@ -267,3 +267,35 @@ func HarnessC10MapMatch() {
 		}
 	}
 }
+
+// HarnessC10Base64: the ToBase64 and FromBase64 string conversions are
+// inverses of each other, also for text whose standard encoding uses the two
+// characters in which the base64 alphabets differ ('+', '/') and for every
+// padding length.
+//
+//gosym:harness panics
+//gosym:cover roundtrip plus-or-slash padded
+func HarnessC10Base64() {
+	texts := []string{"", "a", "ab", "abc", "subjects?_d", "~~~", "\xfb\xff\xbe", ">>>?", "hello world", "\x00\x10\x83"}
+	in := texts[zz.Choose("text", len(texts))]
+	enc, err := Resolve(v1.Transform{Type: v1.TransformTypeString, String: &v1.StringTransform{Type: v1.StringTransformTypeConvert, Convert: ptr.To(v1.StringConversionTypeToBase64)}}, in)
+	zz.Assert("to-base64-no-error", err == nil)
+	if err != nil {
+		return
+	}
+	es, _ := enc.(string)
+	for i := 0; i < len(es); i++ {
+		if es[i] == '+' || es[i] == '/' {
+			zz.Cover("plus-or-slash")
+		}
+		if es[i] == '=' {
+			zz.Cover("padded")
+		}
+	}
+	dec, err := Resolve(v1.Transform{Type: v1.TransformTypeString, String: &v1.StringTransform{Type: v1.StringTransformTypeConvert, Convert: ptr.To(v1.StringConversionTypeFromBase64)}}, enc)
+	zz.Assert("from-base64-of-to-base64-no-error", err == nil)
+	if err == nil {
+		zz.Cover("roundtrip")
+		zz.Assert("base64-roundtrip-preserves-the-value", dec == any(in))
+	}
+}
